@@ -277,3 +277,30 @@ func BadDirtLoop(n int) int {
 	return s
 }
 func BadIfaceArg(c codec, g getter, b []byte) int { return c.WriteTo(b, g) }
+
+// read-only views (phase 3)
+type ent struct {
+	off int
+	v   int
+}
+type table struct {
+	items []ent
+	idx   []int32
+	seed  ext.Seed
+}
+
+func (m *table) BadViewStore() int {
+	e := &m.items[0]
+	e.off = 1
+	return e.off
+}
+func (m *table) BadSliceStore() int {
+	m.idx[0] = 1
+	return len(m.idx)
+}
+func (m *table) BadElemWhole() int {
+	x := m.items[0]
+	return x.v
+}
+func (m *table) BadOpaqueField() uint64 { return m.seed.K }
+func BadKeyedArg(s ext.Seed) uint64     { return ext.Keyed(s, "x") }
